@@ -215,11 +215,15 @@ class Engine:
         self._tests[fnobj.qname] = c
         return c
 
-    def summary(self, fnobj):
+    def summary(self, fnobj, bindings=frozenset()):
         """Return-conditioned summary of fnobj.  Recursion is solved by
         fixpoint iteration from the empty summary (a recursive call that
-        cannot return yet contributes no post-state)."""
+        cannot return yet contributes no post-state).  `bindings` is a set of
+        (parameter index, tracked key): the argument is a read of that key, so
+        tests of the parameter inside the callee constrain the key's entry value."""
         q = fnobj.qname
+        if bindings:
+            q = (fnobj.qname, bindings)
         if q in self.summaries:
             return self.summaries[q]
         if q in self.in_progress:
@@ -235,7 +239,7 @@ class Engine:
         try:
             for it in range(self.tr.max_rec_iters):
                 deps.discard(q)
-                run = FunctionRun(self, fnobj, summary_mode=True)
+                run = FunctionRun(self, fnobj, summary_mode=True, bindings=bindings)
                 run.solve()
                 sm = Summary(run.exit_tuples(), run.widened)
                 self.stats["summaries"] += 1
@@ -261,7 +265,7 @@ class Engine:
             self.dep_stack.pop()
         if not converged:
             # sound fallback: everything the function may write is unknown
-            w = frozenset(k for k in self.tr.keys if self.cg.may_write(q, k))
+            w = frozenset(k for k in self.tr.keys if self.cg.may_write(fnobj.qname, k))
             sm = Summary(sm.tuples + [(TOP, {}, w)], True)
         deps.discard(q)
         if not (deps & set(self.in_progress)):
@@ -277,7 +281,9 @@ class Engine:
 
 
 class FunctionRun:
-    def __init__(self, engine, fn, summary_mode=False, entry=None):
+    def __init__(self, engine, fn, summary_mode=False, entry=None, bindings=frozenset()):
+        self.bindings = bindings
+        self.alias = {}
         self.eng = engine
         self.prog = engine.prog
         self.cg = engine.cg
@@ -304,6 +310,22 @@ class FunctionRun:
             if "pe" in n and n.get("k") != "int":
                 self.pe_used.add(n["pe"])
         self.live_in = self._liveness()
+        if bindings:
+            assigned = set()
+            for b, ln, n in fn.nodes():
+                if n.get("k") == "bin" and n["op"] in ASSIGN_OPS:
+                    l = strip(n["l"])
+                    if l is not None and l.get("k") == "var" and "id" in l:
+                        assigned.add(l["id"])
+                elif n.get("k") == "un" and n["op"] in ("++", "--", "post++", "post--", "&"):
+                    l = strip(n["e"])
+                    if l is not None and l.get("k") == "var" and "id" in l:
+                        assigned.add(l["id"])
+            for (i, key) in bindings:
+                if i < len(fn.params):
+                    pid = fn.params[i].get("id")
+                    if pid is not None and pid not in assigned:
+                        self.alias[pid] = key
 
     def _cond_locals(self):
         """Locals whose value can influence a branch or the return value:
@@ -647,7 +669,7 @@ class FunctionRun:
         if ref is None:
             return
         if ref[0] == "k":
-            self.setval(state, ref[1], newval)
+            self.refine_val(state, ref[1], newval)
 
     def tag_refined(self, ns, ref, newval):
         """Invoke the tracker's tag hook when a tagged call result is refined."""
@@ -662,6 +684,28 @@ class FunctionRun:
             return ns
         r = self.tr.on_tag_refine(self, tag, newval, ns)
         return ns if r is None else r
+
+    def refine_val(self, state, key, val):
+        """A branch refined the value of key: record it, and (in summary mode, while the
+        key has not been assigned yet) as a pre-condition on the value at function entry."""
+        self.setval(state, key, val)
+        if key[0] == "L" and key[1] in self.alias:
+            k2 = self.alias[key[1]]
+            if k2 not in state.get(WRITTEN, ()):
+                m = av.meet(state.get(k2, TOP), val)
+                if m != BOT:
+                    self.setval(state, k2, m)
+                    if m is not TOP:
+                        state[("P", k2)] = state.get(k2, TOP)
+                        if state[("P", k2)] is TOP:
+                            del state[("P", k2)]
+        if self.summary_mode and key[0] in ("F", "G") and key not in state.get(WRITTEN, ()):
+            if val is TOP:
+                state.pop(("P", key), None)
+            else:
+                state[("P", key)] = state.get(key, TOP)
+                if state[("P", key)] is TOP:
+                    del state[("P", key)]
 
     def setval(self, state, key, val):
         bm = self.tr.bitmask.get(key)
@@ -702,11 +746,11 @@ class FunctionRun:
                 fv = av.mask_filter(cur, mask, False)
                 if tv != BOT:
                     ns = dict(s)
-                    self.setval(ns, key, tv)
+                    self.refine_val(ns, key, tv)
                     ts.append(ns)
                 if fv != BOT:
                     ns = dict(s)
-                    self.setval(ns, key, fv)
+                    self.refine_val(ns, key, fv)
                     fs.append(ns)
                 continue
             tv = av.truth_filter(v, True)
@@ -714,12 +758,12 @@ class FunctionRun:
             if tv != BOT:
                 ns = dict(s)
                 if ref is not None and ref[0] == "k":
-                    self.setval(ns, ref[1], tv)
+                    self.refine_val(ns, ref[1], tv)
                 ts.append(self.tag_refined(ns, ref, tv))
             if fv != BOT:
                 ns = dict(s)
                 if ref is not None and ref[0] == "k":
-                    self.setval(ns, ref[1], fv)
+                    self.refine_val(ns, ref[1], fv)
                 fs.append(self.tag_refined(ns, ref, fv))
         return ts, fs
 
@@ -760,11 +804,11 @@ class FunctionRun:
                 fv = av.mask_eq_filter(cur, mask, c, op != "==")
                 if tv != BOT:
                     ns = dict(s)
-                    self.setval(ns, key, tv)
+                    self.refine_val(ns, key, tv)
                     ts.append(ns)
                 if fv != BOT:
                     ns = dict(s)
-                    self.setval(ns, key, fv)
+                    self.refine_val(ns, key, fv)
                     fs.append(ns)
                 return
             if (op == ">" and c == 0) or (op == ">=" and c == 1):
@@ -784,12 +828,12 @@ class FunctionRun:
         if tv != BOT:
             ns = dict(s)
             if ref is not None and ref[0] == "k":
-                self.setval(ns, ref[1], tv)
+                self.refine_val(ns, ref[1], tv)
             ts.append(self.tag_refined(ns, ref, tv))
         if fv != BOT:
             ns = dict(s)
             if ref is not None and ref[0] == "k":
-                self.setval(ns, ref[1], fv)
+                self.refine_val(ns, ref[1], fv)
             fs.append(self.tag_refined(ns, ref, fv))
 
     # ------------------------------------------------------------ eval
@@ -1313,7 +1357,15 @@ class FunctionRun:
             rs = self.cg.retsets.ret.get(t.qname)
             rv = av.norm(("S", rs)) if rs else TOP
             return [(ns, rv)]
-        sm = eng.summary(t)
+        binds = set()
+        args = e.get("a", [])
+        for i, a in enumerate(args):
+            a0 = strip(a)
+            if a0 is not None and a0.get("k") == "mem" and i < len(t.params):
+                k = self.key_of(a0)
+                if k is not None and k[0] == "F" and t.params[i].get("t") in INT_TYPES:
+                    binds.add((i, k))
+        sm = eng.summary(t, frozenset(binds))
         if sm is None:
             self.cut = True
             ns = dict(state)
@@ -1327,6 +1379,19 @@ class FunctionRun:
         for (rv, fvals, written) in sm.tuples:
             ns = dict(state)
             ok = True
+            for k, pv in fvals.items():
+                if k[0] == "P":
+                    m = av.meet(ns.get(k[1], TOP), pv)
+                    if m == BOT:
+                        ok = False
+                        break
+                    if k[1] not in written:
+                        self.setval(ns, k[1], m)
+                    elif self.summary_mode and k[1] not in ns.get(WRITTEN, ()):
+                        # propagate the pre-condition to our own entry
+                        self.refine_val(ns, k[1], m)
+            if not ok:
+                continue
             for k in written:
                 v = fvals.get(k, TOP)
                 bm = self.tr.bitmask.get(k)
@@ -1358,7 +1423,7 @@ class FunctionRun:
             if not ok:
                 continue
             for k, v in fvals.items():
-                if k in written or k[0] == "WB":
+                if k in written or k[0] in ("WB", "P"):
                     continue
                 if k[0] == "E":
                     # typestate entries are always 'written' when present
@@ -1386,7 +1451,7 @@ class FunctionRun:
             d = dict(fs)
             rv = d.pop(RET, TOP)
             written = d.pop(WRITTEN, frozenset())
-            fvals = {k: v for k, v in d.items() if k[0] in ("F", "G", "E", "WB")}
+            fvals = {k: v for k, v in d.items() if k[0] in ("F", "G", "E", "WB", "P")}
             exact[(rv, freeze(fvals), written)] = (rv, fvals, written)
         if len(exact) <= self.tr.max_exact_tuples:
             return list(exact.values())
@@ -1394,7 +1459,7 @@ class FunctionRun:
             d = dict(fs)
             rv = d.pop(RET, TOP)
             written = d.pop(WRITTEN, frozenset())
-            fvals = {k: v for k, v in d.items() if k[0] in ("F", "G", "E", "WB")}
+            fvals = {k: v for k, v in d.items() if k[0] in ("F", "G", "E", "WB", "P")}
             ev = frozenset((k, v) for k, v in fvals.items() if k[0] == "E")
             gk = (rv, written, ev)
             g = groups.get(gk)
